@@ -173,13 +173,16 @@ def scenario(pk, params, inp):
             gen(n + 2, Stub(_FixedInp(inp.mode), prefix="mid"))
         except Exception as e:  # noqa: BLE001
             out["mid_exception"] = type(e).__name__
+        # "identically seeded": the same bit-stream state AND the same SeedSequence object (a restored bit_generator.state, or a second
+        # default_rng(ss) from one SeedSequence) - the strictest reading; state outside the bit stream (spawn counter) is not rewound
+        kw = {"seed_seq": rng1.seed_seq} if Stub is RngStub else {}
         if inp.mode == "sym":
             rp = _Replay()
-            g2 = gen(n, Stub(rp))
+            g2 = gen(n, Stub(rp, **kw))
         else:
             saved = inp._ci
             inp._ci = 0
-            g2 = gen(n, Stub(inp))
+            g2 = gen(n, Stub(inp, **kw))
             inp._ci = max(saved, inp._ci)
         out["values2"] = _tab(pk, g2, n)
     return out
